@@ -602,4 +602,141 @@ func runC03(r *Run) {
 			c03RestoredThenFailed(r, i)
 		}
 	}
+	for i := 0; i < r.Pick(48, 480); i++ {
+		if i%r.NShards == r.Shard {
+			loadIntoCacheInUse(r, i, "C03")
+		}
+	}
+}
+
+// loadIntoCacheInUse: a cache that has been up for a while and holds TTL entries of its own (on the hybrid kinds half
+// of them demoted to the secondary store) loads a snapshot taken from another cache - younger, older, or as old.
+// Afterwards virtual time is stepped across the deadlines. Judged under C03: no entry the cache held before the load
+// (and none it restored) is returned by Get / Range after its deadline. Judged under C06: no entry it held before the
+// load, whose deadline is still more than two seconds away, has disappeared (the cache is a tenth full, nothing was
+// deleted). Reference time = wall clock + the virtual advance; deadlines = clock origin + stored deadline, read from
+// each cache's own entries before the load.
+func loadIntoCacheInUse(r *Run, idx int, prop string) {
+	rng := r.Rng(int64(3700 + idx))
+	kind := anyKinds[idx%4]
+	ownUp := []time.Duration{10 * time.Minute, 7 * time.Second, 3 * time.Hour, 90 * time.Second}[idx/4%4]
+	srcUp := []time.Duration{0, 2 * time.Hour, 40 * time.Second}[idx/16%3]
+	bar := &secBarrier{}
+	internal.VerifSetHook(bar.hook)
+	defer internal.VerifSetHook(nil)
+	var loads atomic.Int64
+	dst, err := newAnyCache(kind, anyOpts{MaxSize: 2000, KeepLog: true, Workers: 1, Prob: 1, ProbSet: true,
+		Loader: func(ctx context.Context, k int) (theine.Loaded[int64], error) {
+			return theine.Loaded[int64]{Value: 6_600_000 + loads.Add(1), Cost: 1}, nil
+		}})
+	if err != nil {
+		r.Broken("build: %v", err)
+		return
+	}
+	defer dst.store().Close()
+	dstt := dst.store()
+	dstt.VerifShiftClock(ownUp, true)
+	dstt.VerifRefreshClock()
+	src, err := newAnyCache("plain", anyOpts{MaxSize: 2000})
+	if err != nil {
+		r.Broken("build: %v", err)
+		return
+	}
+	defer src.store().Close()
+	if srcUp > 0 {
+		src.store().VerifShiftClock(srcUp, true)
+		src.store().VerifRefreshClock()
+	}
+	defer r.Eval(1)
+	n := 30 + rng.Intn(40)
+	val := func(k int) int64 { return int64(k)<<8 | 3 }
+	for k := 0; k < n; k++ {
+		dst.set(k, val(k), 1, time.Duration(4+rng.Intn(50))*time.Second)
+		src.set(1000+k, val(1000+k), 1, time.Duration(4+rng.Intn(50))*time.Second)
+	}
+	dst.wait()
+	src.wait()
+	deadline := map[int]int64{}
+	for _, e := range dstt.VerifSnapshot().Map {
+		deadline[e.Key] = dstt.VerifClockStartNano() + e.Expire
+	}
+	for _, e := range src.store().VerifSnapshot().Map {
+		deadline[e.Key] = src.store().VerifClockStartNano() + e.Expire
+	}
+	demoted := 0
+	if dst.hybrid() {
+		for k := 0; k < n; k += 2 {
+			if bar.demote(dst, k) {
+				demoted++
+			}
+		}
+	}
+	var buf bytes.Buffer
+	if err := src.save(1, &buf); err != nil {
+		r.Broken("save: %v", err)
+		return
+	}
+	if err := dst.load(1, &buf); err != nil {
+		r.Broken("load: %v", err)
+		return
+	}
+	var advanced time.Duration
+	ref := func() int64 { return time.Now().UnixNano() + int64(advanced) }
+	wit := map[string]any{"round": idx, "cache": kind, "uptime_of_the_receiving_cache": ownUp.String(), "uptime_of_the_saving_cache": srcUp.String(), "own_entries_demoted_before_the_load": demoted}
+	desc := fmt.Sprintf("round %d: %s cache up for %v holding %d TTL entries of its own (%d of them in its secondary store) loaded a snapshot of %d entries from a cache up for %v", idx, kind, ownUp, n, demoted, n, srcUp)
+	const slack = int64(20 * time.Millisecond) // wall clock against the cache's monotonic clock
+	late, early, firstLate, firstEarly := 0, 0, "", ""
+	var lag time.Duration
+	for step := 0; step < 14; step++ {
+		d := time.Duration(1+rng.Intn(7)) * time.Second
+		dstt.VerifShiftClock(d, true)
+		advanced += d
+		if lag += d; rng.Intn(2) == 0 || lag > 20*time.Second {
+			dstt.VerifRefreshClock() // the cached clock lags by less than the 30 s the read path tolerates
+			lag = 0
+		}
+		for k, dl := range deadline {
+			own := k < 1000
+			before := ref()
+			l0 := loads.Load()
+			v, ok, gerr := dst.get(context.Background(), k)
+			after := ref()
+			loaded := loads.Load() > l0
+			switch {
+			case gerr != nil:
+			case ok && !loaded && v == val(k) && before >= dl+slack:
+				late++
+				if firstLate == "" {
+					firstLate = fmt.Sprintf("key %d (%s) returned by Get %.1f s after its deadline", k, map[bool]string{true: "held before the load", false: "restored by the load"}[own], float64(before-dl)/1e9)
+				}
+			case own && (!ok || loaded) && after < dl-int64(2*time.Second):
+				early++
+				if firstEarly == "" {
+					firstEarly = fmt.Sprintf("key %d, held before the load, is gone %.1f s before its deadline (Get: ok=%v, loader ran=%v)", k, float64(dl-after)/1e9, ok, loaded)
+				}
+				delete(deadline, k) // report a key once
+			}
+			r.Count("reads_after_a_load_into_a_cache_in_use", 1)
+		}
+		if !dst.hybrid() {
+			before := ref()
+			dst.rangeAll(func(k int, v int64) bool {
+				if dl, ok := deadline[k]; ok && v == val(k) && before >= dl+slack { // (a loading Get may have stored a new value meanwhile)
+					late++
+					if firstLate == "" {
+						firstLate = fmt.Sprintf("key %d visited by Range %.1f s after its deadline", k, float64(before-dl)/1e9)
+					}
+				}
+				return true
+			})
+		}
+	}
+	if prop == "C03" && late > 0 {
+		r.Violate("served-expired/after-loadcache-into-a-cache-in-use", fmt.Sprintf("%s; then %d reads returned a value after its deadline (first: %s)", desc, late, firstLate), wit)
+	}
+	if prop == "C06" && early > 0 {
+		r.Violate("value-lost-without-reason/before-its-deadline/after-loadcache-into-a-cache-in-use", fmt.Sprintf("%s; then %d of its own entries disappeared more than 2 s before their deadline, with the cache a tenth full and nothing deleted (first: %s)", desc, early, firstEarly), wit)
+	}
+	r.Count("loads_into_a_cache_in_use", 1)
+	r.Distinct(fmt.Sprintf("load-into-cache-in-use/%s/own=%v/src=%v", kind, ownUp, srcUp))
 }
